@@ -147,13 +147,13 @@ PROPS = {
     },
     "C09": {
         "modules": ["SifVerif.Props.C09", "SifVerif.Props.FactsCalls"],
-        "theorems": ["C09_bystander_content", "C09_data_phase", "C09_between_calls", "C09_bystander_descriptor", "C09_add_atomic", "C09_error_returned", "callsPrefix_crash", "add_order", "delete_order", "set_orders", "no_discarded_errors"],
+        "theorems": ["C09_bystander_content", "C09_data_phase", "C09_between_calls", "C09_bystander_descriptor", "C09_add_atomic", "C09_every_interruption", "flush_crash_full", "C09_error_returned", "callsPrefix_crash", "add_order", "delete_order", "set_orders", "no_discarded_errors"],
         "mode": "hist", "technique": "Lean 4 theorems about the I/O plans of the model (interruption relation CrashOf: every prefix of whole calls, optionally a torn prefix of the next write) + call-for-call correspondence of the recorded Seek/Write/Truncate trace of every real operation with the model's plan + call-order/unchecked-error facts regenerated from the Go source + implementation oracle: every enumerated crash image loaded by the real library, every single injected failure (error and short-write) re-run on the real library",
         "level": "proof",
-        "level_text": "proof (partial: torn writes inside the descriptor-table/header write are decided by the crash campaign, not by a theorem; the unrestricted statement is false of the code - finding D11): for every well-formed placed handle and every operation, at every interruption including torn writes every surviving object's content is byte-identical and inside the file (C09_bystander_content); every plan is a data phase followed by writeDescriptors();writeHeader(), and at every interruption of the data phase, torn data writes included, the file loads as exactly the old image (C09_data_phase); at every interruption between calls the file loads as old header+table, old header+new table, or new header+table (C09_between_calls), a slot the operation leaves alone holds the same descriptor in all of them (C09_bystander_descriptor), and an added object is absent or completely present with its content (C09_add_atomic); a failing call makes the operation return the I/O error and leaves a between-calls interruption (C09_error_returned, callsPrefix_crash). Tie: a recording/fault-injecting ReadWriter around both backing stores; the recorded trace of every add/delete/set*/sign equals the model's plan call for call (io lines); every crash image (all call prefixes, torn writes at 1, L/2, L-1, around the first differing byte and at descriptor boundaries) is loaded with the real LoadContainer and bystanders compared; every call position is re-run with an injected error and an injected short write and must return an error and leave such an image; call order and absence of discarded errors are regenerated from the source (FactsCalls).",
+        "level_text": "proof: for every well-formed placed handle and every operation, at every interruption including torn writes every surviving object's content is byte-identical and inside the file (C09_bystander_content); every plan is a data phase followed by writeDescriptors();writeHeader(), and at every interruption of the data phase, torn data writes included, the file loads as exactly the old image (C09_data_phase); at every interruption between calls the file loads as old header+table, old header+new table, or new header+table (C09_between_calls), a slot the operation leaves alone holds the same descriptor in all of them (C09_bystander_descriptor), and an added object is absent or completely present with its content (C09_add_atomic); at EVERY interruption - the descriptor-table and header writes torn at any byte included - the file loads and every slot the operation leaves alone holds the same descriptor, for images whose slots are clean (every slot, in use or free, holds a non-negative offset and size; preserved by every operation - clean_plan - and true of everything the library writes) (C09_every_interruption, flush_crash_full; byte-level: a mix of two encodings of non-negative int64 values is non-negative, a mix of two headers agreeing on magic/version/count/table offset/size decodes to them); without clean slots the statement is false of the code (finding D11, foreign images only); a failing call makes the operation return the I/O error and leaves a between-calls interruption (C09_error_returned, callsPrefix_crash). Tie: a recording/fault-injecting ReadWriter around both backing stores; the recorded trace of every add/delete/set*/sign equals the model's plan call for call (io lines); every crash image (all call prefixes, torn writes at 1, L/2, L-1, around the first differing byte and at descriptor boundaries) is loaded with the real LoadContainer and bystanders compared; every call position is re-run with an injected error and an injected short write and must return an error and leave such an image; call order and absence of discarded errors are regenerated from the source (FactsCalls).",
         "summary": "interruptions never touch bystanders; data phase invisible; between calls: loads as old/mixed/new; add atomic; I/O error returned",
         "trusted_base": BASE + ["the interposer sees every mutating call because sif.ReadWriter is the only path to the store; os.File/sif.Buffer semantics as modelled by Store (C14); sector-granularity tearing is approximated by the byte positions listed in harness/crash.go"],
-        "assumptions": [CORR, "torn descriptor-table/header writes: campaign only (no theorem); D11 known finding"],
+        "assumptions": [CORR, "C09_every_interruption assumes clean slots (D11 is its failure on foreign images); sector-granularity tearing is covered by byte-granularity tearing in the theorem and approximated by listed tear points in the campaign"],
     },
     "C10": {
         "modules": ["SifVerif.Props.C10"],
